@@ -14,8 +14,9 @@ RULE = ("A case is a history: 1-3 fake nodes that hold every user request, one s
         "and a generated list of events (answer the i-th held request with rows/void/one of 9 server errors/connection "
         "close/reset, advance the virtual clock, register another callback pair, call result() from a client thread, "
         "fetch the next page when the result has more pages -- a page fetch is an execution of its own), "
-        "plus a schedule tape.  After the events every still-held request is answered (or, with a timeout, time passes "
-        "beyond it).  Non-trivial: at least 2 requests of this execution reached a server (speculative execution or "
+        "plus a schedule tape.  After the events every still-held request is answered, or -- drain mode silent, with a "
+        "timeout -- none is and time passes beyond the timeout, which alone must complete the request (speculative "
+        "policies asking for more attempts than the plan has hosts included).  Non-trivial: at least 2 requests of this execution reached a server (speculative execution or "
         "retry) and at least 2 responses were delivered.  Distinct by case digest.")
 ASSUMPTIONS = ["network, clock, executor and event loop are simulated (sim/); Cluster, Session, pools, connections, "
                "ResponseFuture, policies are the real classes",
@@ -40,7 +41,7 @@ def s_case(gran):
         "spec": st.sampled_from([0, 1, 1, 2, 3]),
         "spec_delay": st.sampled_from([0.0, 0.05]),
         "idempotent": st.sampled_from([True, True, True, False]),
-        "timeout": st.sampled_from([None, None, 0.3, 1.0]),
+        "timeout": st.sampled_from([None, None, 0.3, 0.3, 1.0]),
         "decisions": st.lists(dec, max_size=4),
         "events": st.builds(lambda warm, evs: warm + evs,
                             st.sampled_from([[], [("advance", 0.06)], [("advance", 0.06), ("advance", 0.06)],
@@ -54,6 +55,8 @@ def s_case(gran):
         "tape": st.lists(st.integers(0, 3), max_size=30 if gran == "locks" else 8),
         "gran": st.just(gran),
         "mif": st.sampled_from([None, 3, 4]),
+        # what happens to requests still unanswered after the events: answered, or (with a timeout) never
+        "drain": st.sampled_from(["answer", "answer", "silent"]),
     })
 
 
@@ -160,9 +163,11 @@ def _run(case, ctx, sim):
         if not ok:
             break
 
+    silent = case.get("drain") == "silent" and case["timeout"] is not None
     if ok:
-        # drain: every request the driver sent for this execution gets answered (or the timeout passes)
-        for _ in range(40):
+        # drain: every request the driver sent for this execution gets answered -- or, with a client timeout and
+        # servers that stay silent, time passes beyond the timeout: that alone must complete the request
+        for _ in range(0 if silent else 40):
             sim.settle()
             held = U.all_held(net)
             if not held:
@@ -181,7 +186,12 @@ def _run(case, ctx, sim):
     n_sent = len(my_requests())
     done = fut._event.is_set()
     if ok:
-        if not U.all_held(net) and not done:
+        if silent and not done:
+            ctx.fail(["C14.completes", "silent-servers", "spec=%s" % bool(case["spec"] and case["idempotent"])],
+                     "the client timeout of %s s passed (virtual clock, +0.5 s) with %d request(s) unanswered, but no callback "
+                     "or errback ran and result() would block: %d attempts were sent to %d host(s), %d speculative "
+                     "executions configured" % (case["timeout"], len(U.all_held(net)), n_sent, case["hosts"], case["spec"]))
+        elif not U.all_held(net) and not done:
             ctx.fail(["C14.completes"], "all %d requests answered/failed and time passed, but the future has no outcome" % n_sent)
         elif done:
             for p in pairs:
@@ -213,6 +223,10 @@ def _run(case, ctx, sim):
         ctx.label("retry-consulted")
     if pages[0]:
         ctx.label("page-fetches>0")
+    if silent:
+        ctx.label("silent-drain")
+        if case["spec"] and case["idempotent"] and case["spec"] >= case["hosts"]:
+            ctx.label("silent-drain:more-speculative-attempts-than-hosts")
     if any(p.eb for p in pairs):
         ctx.label("outcome:error")
     elif any(p.cb for p in pairs):
